@@ -1,9 +1,10 @@
 import MdsVerif.Drv.Core
 import MdsVerif.Drv.C07
+import MdsVerif.Drv.C20
 /-! Registry of driver streams. -/
 namespace MdsVerif.Drv
 
-def streams : List Stream := [C07.stream]
+def streams : List Stream := [C07.stream, C20.mbitsStream, C20.truncStream, C20.natcmpStream]
 
 def main (args : List String) : IO UInt32 := do
   match args with
